@@ -112,14 +112,22 @@ EVENTS = (
      ("print", 5, 0), ("print", 6, 0), ("print", 0, 1), ("print", 2, 1)]
     + [("line", 1), ("line", 2)]
     + [("bell",), ("clear",), ("cursor", False), ("cursor", True), ("control",)]
-    + [("begin",), ("end",)]
+    # capture block: entered through the context manager or begin_capture(); left normally, by an
+    # exception propagating out of the with-block (context manager only), or through end_capture()
+    + [("begin", "cm"), ("begin", "raw"), ("end", "ok"), ("end", "exc")]
     + [("xtext", False), ("xtext", True), ("xhtml", False), ("xhtml", True)]
     + [("rule", 0), ("rule", 1)]
     + [("log",)]
 )
 # the 12-event core explored one level deeper than the full alphabet
 CORE = [("print", 0, 0), ("print", 1, 0), ("print", 5, 0), ("print", 2, 1), ("line", 1), ("bell",),
-        ("begin",), ("end",), ("xtext", False), ("xhtml", True), ("rule", 1), ("log",)]
+        ("begin", "cm"), ("end", "ok"), ("end", "exc"), ("xtext", False), ("xhtml", True), ("log",)]
+# two consoles in one history: per-console alphabet of the "pair" stratum
+PAIR = [("print", 0, 0), ("print", 1, 0), ("bell",), ("begin", "cm"), ("end", "ok"),
+        ("xtext", False), ("xhtml", True), ("log",)]
+# how a console of the pair stratum came to record: record=True in the constructor, or built without,
+# one print (which must not be recorded), then `console.record = True`
+MODES = [("ctor", "ctor"), ("late", "late"), ("ctor", "late"), ("late", "ctor")]
 
 # (color_system, force_terminal, width, no_color) with no_color in None | "arg" (no_color=True) |
 # "env" (NO_COLOR in _environ).  Width 10 and no_color are crossed with the colour systems, not with
@@ -134,6 +142,10 @@ CONFIGS = (
 CORE_CONFIGS_QUICK = [(None, False, 40, None), ("standard", True, 40, None), ("256", False, 40, None),
                       ("truecolor", True, 40, None), ("standard", True, 40, "arg"), ("truecolor", False, 40, "env")]
 CORE_CONFIGS_THOROUGH = [c for c in CONFIGS if c[2] == 40 and c[3] in (None, "arg")]
+# the deepest level of the full alphabet in the thorough tier runs on these, the rest stops one level earlier
+FULL_DEEP_CONFIGS_THOROUGH = CORE_CONFIGS_THOROUGH
+PAIR_CONFIGS_QUICK = [(None, False, 40, None), ("standard", True, 40, None), ("truecolor", True, 40, "arg")]
+PAIR_CONFIGS_THOROUGH = [("standard", True, 40, None), ("truecolor", False, 40, "env")]
 
 _FIXED_DT = datetime(2021, 2, 3, 4, 5, 6)
 _LINK_ID = re.compile(r"\x1b\]8;id=[^;\x1b\x07]*;")
@@ -253,20 +265,34 @@ def _crash_key(exc):
 
 # ------------------------------------------------------------------ one run
 class Run:
-    """Real console + twin + reference model for one configuration."""
+    """One recording console + its twin + its reference model."""
 
-    def __init__(self, cfg):
+    def __init__(self, cfg, mode="ctor"):
         self.cfg = cfg
-        self.real = _console(cfg, True)
+        self.mode = mode
         self.twin = _console(cfg, False)
         self.twin_len = 0
         self.file_exp = ""
         self.rec_exp = ""
         self.pending = None       # chunks of the open capture block
+        self.open_kind = None     # "cm" | "raw" while a block is open
         self.cap = None
         self.problems = []        # (key, detail)
         self.flags = set()        # for the outcome signature
         self.just_cleared = False
+        self.closing = False
+        if mode == "ctor":
+            self.real = _console(cfg, True)
+        else:
+            # recording switched on afterwards; what was printed before is in the file, not in the record
+            self.real = _console(cfg, False)
+            ev = ("print", 0, 0)
+            _emit(self.twin, ev)
+            _emit(self.real, ev)
+            whole = self.twin.file.getvalue()
+            self.file_exp = _norm(whole)
+            self.twin_len = len(whole)
+            self.real.record = True
 
     # -- state
     def is_open(self):
@@ -275,16 +301,45 @@ class Run:
     def canon(self):
         r = self.real
         return (_norm(r.file.getvalue()), _segs(r._record_buffer), _segs(r._buffer), r._buffer_index,
-                r._log_render._last_time, self.file_exp, self.rec_exp, self.pending,
+                r._log_render._last_time, self.file_exp, self.rec_exp, self.pending, self.open_kind,
                 self.twin._log_render._last_time)
+
+    def model(self):
+        return (self.file_exp, self.rec_exp, self.pending, self.open_kind)
 
     def bad(self, key, detail):
         self.problems.append((key, detail))
+
+    # -- the capture events on the real console
+    def _begin(self, kind):
+        if kind == "cm":
+            self.cap = self.real.capture()
+            self.cap.__enter__()
+        else:
+            self.real.begin_capture()
+
+    def _end(self, how):
+        """-> the captured string, or None when the Capture object has no result"""
+        if self.open_kind == "raw":
+            return self.real.end_capture()
+        if how == "exc":
+            try:
+                raise KeyError("application error inside the capture block")
+            except KeyError as exc:
+                self.cap.__exit__(KeyError, exc, exc.__traceback__)
+        else:
+            self.cap.__exit__(None, None, None)
+        from rich.console import CaptureError
+        try:
+            return self.cap.get()
+        except CaptureError:
+            return None
 
     # -- transitions
     def step(self, ev, check):
         k = ev[0]
         self.just_cleared = k in ("xtext", "xhtml")
+        self.closing = k == "end"
         try:
             if k in _OUTPUT:
                 _emit(self.twin, ev)
@@ -298,19 +353,26 @@ class Run:
                 else:
                     self.pending += chunk
             elif k == "begin":
-                self.cap = self.real.capture()
-                self.cap.__enter__()
+                self._begin(ev[1])
                 self.pending = ""
+                self.open_kind = ev[1]
             elif k == "end":
-                self.cap.__exit__(None, None, None)
-                got = _norm(self.cap.get())
+                got = self._end(ev[1])
                 want = self.pending
+                kind = self.open_kind
                 self.pending = None
+                self.open_kind = None
                 self.rec_exp += want
-                if check and got != want:
-                    self.bad("capture/result-differs-from-direct-write",
-                             "Capture.get() %r, the twin wrote %r (%s)" % (got, want, _first_diff(got, want)))
-                self.flags.add("cap-empty" if not want else "cap")
+                if check:
+                    if got is None:
+                        self.bad("capture/no-result-after-block",
+                                 "Capture.get() raises CaptureError after the block was left (%s)" % ev[1])
+                    elif _norm(got) != want:
+                        got = _norm(got)
+                        self.bad("capture/result-differs-from-direct-write",
+                                 "%s %r, the twin wrote %r (%s)" % ("end_capture()" if kind == "raw" else "Capture.get()",
+                                                                    got, want, _first_diff(got, want)))
+                self.flags.add(("cap-empty" if not want else "cap") + ("-exc" if ev[1] == "exc" else ""))
             elif k == "xtext":
                 ref = _record_cells(self.real._record_buffer) if check and ev[1] else None
                 out = self.real.export_text(clear=True, styles=ev[1])
@@ -326,42 +388,40 @@ class Run:
             self.bad(_crash_key(exc), "%s: %s" % (type(exc).__name__, exc))
             return False
         if check:
-            got = _norm(self.real.file.getvalue())
-            if got != self.file_exp:
-                if self.pending is not None and len(got) > len(self.file_exp):
-                    self.bad("capture/output-reached-the-file", "file %r, expected %r while the block is open"
-                             % (got, self.file_exp))
-                else:
-                    self.bad("file/differs-from-direct-writes", "file %r, twin (events outside blocks) %r (%s)"
-                             % (got, self.file_exp, _first_diff(got, self.file_exp)))
+            self.check_file()
         return True
 
-    def fast_forward(self, prefix, model):
-        try:
-            for ev in prefix:
-                k = ev[0]
-                if k in _OUTPUT:
-                    if k == "log":
-                        _emit(self.twin, ev)
-                    _emit(self.real, ev)
-                elif k == "begin":
-                    self.cap = self.real.capture()
-                    self.cap.__enter__()
-                elif k == "end":
-                    self.cap.__exit__(None, None, None)
-                elif k == "xtext":
-                    self.real.export_text(clear=True, styles=ev[1])
-                elif k == "xhtml":
-                    self.real.export_html(clear=True, inline_styles=ev[1])
-        except Exception as exc:     # noqa: BLE001
-            self.bad(_crash_key(exc), "%s: %s (while replaying a prefix that ran before)" % (type(exc).__name__, exc))
-            return False
+    def check_file(self):
+        got = _norm(self.real.file.getvalue())
+        if got != self.file_exp:
+            if (self.pending is not None or self.closing) and len(got) > len(self.file_exp):
+                self.bad("capture/output-reached-the-file", "file %r, expected %r (block %s)"
+                         % (got, self.file_exp, "open" if self.pending is not None else "just left"))
+            else:
+                self.bad("file/differs-from-direct-writes", "file %r, twin (events outside blocks) %r (%s)"
+                         % (got, self.file_exp, _first_diff(got, self.file_exp)))
+
+    def ff_event(self, ev):
+        """replays a prefix event: real console only (the twin only logs)"""
+        k = ev[0]
+        if k in _OUTPUT:
+            if k == "log":
+                _emit(self.twin, ev)
+            _emit(self.real, ev)
+        elif k == "begin":
+            self._begin(ev[1])
+            self.open_kind = ev[1]
+        elif k == "end":
+            self._end(ev[1])
+            self.open_kind = None
+        elif k == "xtext":
+            self.real.export_text(clear=True, styles=ev[1])
+        elif k == "xhtml":
+            self.real.export_html(clear=True, inline_styles=ev[1])
+
+    def ff_finish(self, model):
         self.twin_len = len(self.twin.file.getvalue())
-        self.file_exp, self.rec_exp, self.pending = model
-        return True
-
-    def model(self):
-        return (self.file_exp, self.rec_exp, self.pending)
+        self.file_exp, self.rec_exp, self.pending, self.open_kind = model
 
     # -- oracles on exports
     def judge_text(self, out, styles, how, ref=None):
@@ -418,15 +478,23 @@ class Run:
     def observe(self):
         """the four non-clearing exports, each followed by a state comparison.  Judged in the
         order plain text, styled text, HTML; a later one is judged only when the plain export
-        agreed (a record that differs from what was written is one defect, not three)."""
+        agreed (a record that differs from what was written is one defect, not three).
+        Directly after a clearing export every kind of export must come out empty: the plain and
+        the HTML text, and the styled export as the empty string (it also carries the recorded
+        control codes, so this is the one that sees a record that still holds something)."""
         real = self.real
         before = self.canon()
         try:
             if self.just_cleared:
-                again = real.export_text(clear=False)
-                if again != "":
+                left = [("export_text()", real.export_text(clear=False)),
+                        ("export_text(styles=True)", real.export_text(clear=False, styles=True)),
+                        ("export_html() text", _html_text(real.export_html(clear=False))),
+                        ("export_html(inline_styles=True) text",
+                         _html_text(real.export_html(clear=False, inline_styles=True)))]
+                left = [(n, o) for n, o in left if o]
+                if left:
                     self.bad("export/clear-true-left-record",
-                             "after an export with clear=True a second export_text() returns %r" % again[:80])
+                             "after an export with clear=True a second %s returns %r" % (left[0][0], left[0][1][:80]))
                     return before
             n = len(self.problems)
             out = real.export_text(clear=False, styles=False)
@@ -447,6 +515,58 @@ class Run:
         if after != before:
             self.bad("export/clear-false-changed-state", "record/file/buffer changed by export(clear=False)")
         return before
+
+
+class World:
+    """One console (single strata) or two consoles of the same configuration whose operations are
+    interleaved in one history (pair stratum).  A history is a list of (side, event)."""
+
+    def __init__(self, cfg, modes=("ctor",)):
+        self.cfg = cfg
+        self.modes = tuple(modes)
+        self.sides = [Run(cfg, m) for m in modes]
+        self.acting = None
+
+    @property
+    def problems(self):
+        out = []
+        for i, s in enumerate(self.sides):
+            for key, detail in s.problems:
+                out.append((key, detail if len(self.sides) == 1 else "console %d: %s" % (i, detail)))
+        return out
+
+    def models(self):
+        return tuple(s.model() for s in self.sides)
+
+    def step(self, sev, check):
+        side, ev = sev
+        self.acting = side
+        for i, s in enumerate(self.sides):
+            if i != side:
+                s.just_cleared = s.closing = False
+        return self.sides[side].step(tuple(ev), check)
+
+    def fast_forward(self, prefix, models):
+        try:
+            for side, ev in prefix:
+                self.sides[side].ff_event(tuple(ev))
+        except Exception as exc:     # noqa: BLE001
+            self.sides[0].bad(_crash_key(exc), "%s: %s (while replaying a prefix that ran before)"
+                              % (type(exc).__name__, exc))
+            return False
+        for s, m in zip(self.sides, models):
+            s.ff_finish(m)
+        return True
+
+    def observe(self):
+        """every console is observed after every history: what one console did must not show in
+        the file or in any export of the other"""
+        canon = []
+        for i, s in enumerate(self.sides):
+            if i != self.acting and self.acting is not None:
+                s.check_file()
+            canon.append(s.observe())
+        return tuple(canon)
 
 
 def _segs(segments):
@@ -490,85 +610,126 @@ def _record_cells(segments):
     return out
 
 
-def enabled(ev, is_open):
+def enabled(ev, open_kind):
+    """captures are not nested; an exception can only leave a with-block"""
     if ev[0] == "begin":
-        return not is_open
+        return open_kind is None
     if ev[0] == "end":
-        return is_open
+        return open_kind is not None and (ev[1] == "ok" or open_kind == "cm")
     return True
 
 
-def run_history(cfg, hist, model=None):
-    """Replays `hist` on fresh consoles; oracles are evaluated on the last event and on the
-    final observation (every proper prefix is a history of its own). -> (Run, canon)
+def run_history(cfg, hist, models=None, modes=("ctor",)):
+    """Replays `hist` (list of (side, event)) on fresh consoles; oracles are evaluated on the last
+    event and on the final observation (every proper prefix is a history of its own).
+    -> (World, canon)
 
-    model=None: twin and reference model run in lock-step over the whole history (replay files,
-    self-check).  model=(file_exp, rec_exp, pending) of the prefix hist[:-1], as computed when
-    that prefix was judged: the prefix is replayed on the real console only; the twin replays
-    just the prefix's log events (the only events that change what a later event makes it
-    write: LogRender._last_time) and then executes the last event."""
-    run = Run(cfg)
+    models=None: twins and reference models run in lock-step over the whole history (replay files,
+    self-check).  models = per console (file_exp, rec_exp, pending, open_kind) of the prefix
+    hist[:-1], as computed when that prefix was judged: the prefix is replayed on the real
+    consoles only; a twin replays just the prefix's log events of its console (the only events
+    that change what a later event makes it write: LogRender._last_time) and then the last event."""
+    world = World(cfg, modes)
     n = len(hist)
     ok = True
-    if model is not None and n:
-        ok = run.fast_forward(hist[:-1], model)
+    if models is not None and n:
+        ok = world.fast_forward(hist[:-1], models)
         if ok:
-            ok = run.step(tuple(hist[-1]), True)
+            ok = world.step(hist[-1], True)
     else:
-        for i, ev in enumerate(hist):
-            ok = run.step(tuple(ev), i == n - 1)
+        for i, sev in enumerate(hist):
+            ok = world.step(sev, i == n - 1)
             if not ok:
                 break
-    canon = run.observe() if ok else None
-    return run, canon
+    canon = world.observe() if ok else None
+    return world, canon
 
 
-def _signature(run, hist):
-    cfg = run.cfg
-    rec = run.rec_exp
-    cells, ctl = _decode(rec)[:2]
-    styled = any(st[0] or st[1] or st[2] for _, st in cells)
-    linked = any(st[3] for _, st in cells)
-    nl = sum(1 for ch, _ in cells if ch == "\n")
-    last = hist[-1][0] if hist else "-"
-    sig = (cfg[0], cfg[1], bool(cfg[3]), last, run.is_open(), bool(cells), styled, linked, bool(ctl), min(nl, 3),
-           bool(run.file_exp), tuple(sorted(run.flags)), any(c in rec for c in "<&>"))
-    nontrivial = bool(cells) or bool(ctl) or bool(run.flags)
+def _signature(world, hist):
+    cfg = world.cfg
+    last = hist[-1][1][0] if hist else "-"
+    parts = []
+    nontrivial = False
+    for run in world.sides:
+        rec = run.rec_exp
+        cells, ctl = _decode(rec)[:2]
+        nontrivial = nontrivial or bool(cells) or bool(ctl) or bool(run.flags)
+        if len(world.sides) == 1:
+            styled = any(st[0] or st[1] or st[2] for _, st in cells)
+            linked = any(st[3] for _, st in cells)
+            nl = sum(1 for ch, _ in cells if ch == "\n")
+            parts.append((run.open_kind, bool(cells), styled, linked, bool(ctl), min(nl, 3), bool(run.file_exp),
+                          tuple(sorted(run.flags)), any(c in rec for c in "<&>")))
+        else:
+            parts.append((run.is_open(), bool(cells), bool(ctl), bool(run.flags)))
+    if len(world.sides) == 1:
+        sig = (cfg[0], cfg[1], bool(cfg[3]), last) + parts[0]
+    else:
+        sig = (cfg[0], "pair", world.modes, hist[-1][0] if hist else -1, last, tuple(parts))
     return sig, nontrivial
 
 
-def _check(cfg, hist, res, model=None, counted=True):
-    run, canon = run_history(cfg, hist, model)
+def _external(hist, modes):
+    """history as written into case descriptions: plain events for one console, [side, event] for two"""
+    if len(modes) == 1:
+        return [list(ev) for _, ev in hist]
+    return [[side, list(ev)] for side, ev in hist]
+
+
+def _case(cfg, hist, modes):
+    case = {"config": list(cfg), "history": _external(hist, modes)}
+    if len(modes) > 1:
+        case["modes"] = list(modes)
+    return case
+
+
+def _check(cfg, hist, res, models=None, counted=True, modes=("ctor",)):
+    world, canon = run_history(cfg, hist, models, modes)
     res.evaluations += 1
     res.count("transitions", 1 if hist and counted else 0)
     res.count("events_executed_including_replays", len(hist))
-    if model is not None and (run.problems or len(hist) <= 2 or res.evaluations % 64 == 0):
+    if models is not None and (world.problems or len(hist) <= 2 or res.evaluations % 64 == 0):
         # The fast path only accelerates the passing case.  Anything it reports, all short
         # histories and every 64th one are replayed in full lock-step (the twin executes the
         # whole history); the lock-step verdict is the one that counts.
-        run2, canon2 = run_history(cfg, hist, None)
+        world2, canon2 = run_history(cfg, hist, None, modes)
         res.count("lockstep_reruns")
-        k1, k2 = [k for k, _ in run.problems], [k for k, _ in run2.problems]
+        k1, k2 = [k for k, _ in world.problems], [k for k, _ in world2.problems]
         if k1 != k2:
             res.count("fast_path_verdict_differs")
-        elif not k1 and (canon2 != canon or run2.model() != run.model()):
-            raise AssertionError("fast-forward and lock-step replay reach different states on %r %r" % (cfg, hist))
-        run, canon = run2, canon2
-    for key, detail in run.problems:
-        res.violate(key, {"config": list(cfg), "history": [list(e) for e in hist]}, detail)
-    sig, nt = _signature(run, hist)
+        elif not k1 and (canon2 != canon or world2.models() != world.models()):
+            raise AssertionError("fast-forward and lock-step replay reach different states on %r %r %r"
+                                 % (cfg, modes, hist))
+        world, canon = world2, canon2
+    for key, detail in world.problems:
+        res.violate(key, _case(cfg, hist, modes), detail)
+    sig, nt = _signature(world, hist)
     res.sig(sig, nontrivial=nt)
-    return run, canon
+    return world, canon
 
 
 def _depths(tier):
-    """-> (full-alphabet depth, core-alphabet depth)"""
-    return (3, 4) if tier == "quick" else (4, 5)
+    """-> (full-alphabet depth, core-alphabet depth, pair depth)"""
+    return (3, 4, 3) if tier == "quick" else (4, 5, 4)
 
 
 def _core_configs(tier):
     """indices of the configurations of the core stratum"""
     return [CONFIGS.index(c) for c in (CORE_CONFIGS_QUICK if tier == "quick" else CORE_CONFIGS_THOROUGH)]
+
+
+def _pair_configs(tier):
+    return [CONFIGS.index(c) for c in (PAIR_CONFIGS_QUICK if tier == "quick" else PAIR_CONFIGS_THOROUGH)]
+
+
+def _full_depth(tier, cfg):
+    d = _depths(tier)[0]
+    if tier != "quick" and cfg not in FULL_DEEP_CONFIGS_THOROUGH:
+        d -= 1
+    return d
+
+
+_PAIR_ALPHABET = [(side, ev) for ev in PAIR for side in (0, 1)]
 
 
 def plan(tier, seed):
@@ -577,28 +738,31 @@ def plan(tier, seed):
     for ci in range(len(CONFIGS)):
         for fi in range(len(EVENTS)):
             shards.append({"cfg": ci, "first": fi, "alpha": "full"})
-    if _depths(tier)[1]:
-        for ci in _core_configs(tier):
-            for fi in range(len(CORE)):
-                for si in range(len(CORE)):
-                    shards.append({"cfg": ci, "first": fi, "second": si, "alpha": "core"})
+    for ci in _core_configs(tier):
+        for fi in range(len(CORE)):
+            for si in range(len(CORE)):
+                shards.append({"cfg": ci, "first": fi, "second": si, "alpha": "core"})
+    for ci in _pair_configs(tier):
+        for mi in range(len(MODES)):
+            for fi in range(len(_PAIR_ALPHABET)):
+                shards.append({"cfg": ci, "modes": mi, "first": fi, "alpha": "pair"})
     return shards
 
 
-def _explore(cfg, root, alphabet, maxdepth, res, count_from=1):
+def _explore(cfg, root, alphabet, maxdepth, res, count_from=1, modes=("ctor",)):
     """BFS by levels below the root history (which is itself judged, in lock-step).
     Histories shorter than count_from are executed and judged again but belong to another
     stratum: they are left out of `states` / `transitions`."""
-    _, c0 = run_history(cfg, [])
+    _, c0 = run_history(cfg, [], None, modes)
     seen = {hash(c0)}
     frontier = []
     maxd = 0
     nstates = 0
     # prefixes of the root were judged by another shard; here they only have to be replayable
-    run, canon = _check(cfg, root, res, counted=len(root) >= count_from)
+    world, canon = _check(cfg, root, res, counted=len(root) >= count_from, modes=modes)
     if canon is not None and hash(canon) not in seen:
         seen.add(hash(canon))
-        frontier.append((root, run.model()))
+        frontier.append((root, world.models()))
         maxd = len(root)
         nstates += len(root) >= count_from
     elif canon is not None:
@@ -606,17 +770,16 @@ def _explore(cfg, root, alphabet, maxdepth, res, count_from=1):
     depth = len(root)
     while frontier and depth < maxdepth:
         nxt = []
-        for h, model in frontier:
+        for h, models in frontier:
             if deadline_passed():
                 res.capped = True
                 break
-            is_open = model[2] is not None
-            for ev in alphabet:
-                if not enabled(ev, is_open):
+            for sev in alphabet:
+                if not enabled(sev[1], models[sev[0]][3]):
                     continue
-                h2 = h + [ev]
+                h2 = h + [sev]
                 counted = len(h2) >= count_from
-                run, canon = _check(cfg, h2, res, model, counted)
+                world, canon = _check(cfg, h2, res, models, counted, modes)
                 if canon is None:
                     continue
                 hc = hash(canon)
@@ -624,7 +787,7 @@ def _explore(cfg, root, alphabet, maxdepth, res, count_from=1):
                     res.count("histories_reaching_seen_state")
                     continue
                 seen.add(hc)
-                nxt.append((h2, run.model()))
+                nxt.append((h2, world.models()))
                 maxd = len(h2)
                 nstates += counted
         if res.capped:
@@ -634,7 +797,7 @@ def _explore(cfg, root, alphabet, maxdepth, res, count_from=1):
     if not res.capped:
         res.count("frontier_at_depth_cap", len(frontier))
         if frontier:
-            res.sample({"config": list(cfg), "history": [list(e) for e in frontier[len(frontier) // 2][0]]}, limit=1)
+            res.sample(_case(cfg, frontier[len(frontier) // 2][0], modes), limit=1)
     res.count("states", nstates)
     res.counters["max_depth"] = max(res.counters.get("max_depth", 0), maxd)
     return seen
@@ -652,47 +815,67 @@ def run_shard(sh, tier, seed):
     res = Result()
     _cold_caches()
     cfg = CONFIGS[sh["cfg"]]
-    full_d, core_d = _depths(tier)
+    full_d, core_d, pair_d = _depths(tier)
     if sh["alpha"] == "full":
         first = EVENTS[sh["first"]]
         if sh["first"] == 0:
             _check(cfg, [], res)           # the empty history
             res.count("states")            # the initial state, counted once per configuration
-        if enabled(first, False):
-            _explore(cfg, [first], EVENTS, full_d, res)
-    else:
+        if enabled(first, None):
+            _explore(cfg, [(0, first)], [(0, ev) for ev in EVENTS], _full_depth(tier, cfg), res)
+    elif sh["alpha"] == "core":
         first, second = CORE[sh["first"]], CORE[sh["second"]]
-        if enabled(first, False) and enabled(second, first[0] == "begin"):
-            _explore(cfg, [first, second], CORE, core_d, res, count_from=full_d + 1)
+        if enabled(first, None) and enabled(second, first[1] if first[0] == "begin" else None):
+            _explore(cfg, [(0, first), (0, second)], [(0, ev) for ev in CORE], core_d, res, count_from=full_d + 1)
+    else:
+        modes = MODES[sh["modes"]]
+        first = _PAIR_ALPHABET[sh["first"]]
+        if sh["first"] == 0:
+            _check(cfg, [], res, modes=modes)
+            res.count("states")
+        if enabled(first[1], None):
+            _explore(cfg, [first], _PAIR_ALPHABET, pair_d, res, modes=modes)
     return res
 
 
 def describe(tier, seed, res):
-    full_d, core_d = _depths(tier)
+    full_d, core_d, pair_d = _depths(tier)
     c = res.counters
     rule = ("all histories of length <= %d over %d events (9 prints over 7 payloads -- markup strings, entities under CSS-less styles, hex/rgb/8-bit colours -- x 2 print styles, line(1|2), bell, clear, "
-            "show_cursor(F|T), control(''), capture enter/exit (not nested), export_text(clear=True, styles F|T), "
-            "export_html(clear=True, inline F|T), rule('' | 't<'), log) x %d configurations (color_system None|standard|"
-            "256|truecolor x terminal or not at width 40, 4 at width 10, 8 with no_color / NO_COLOR)" % (full_d, len(EVENTS), len(CONFIGS)))
-    if core_d:
-        rule += ("; plus all histories of length %d over a %d-event core (print a / entities / entities under CSS-less styles incl. a bare link / styled markup, "
-                 "line, bell, capture enter/exit, export_text(clear), export_html(clear, inline), rule('t<'), log) on %d "
-                 "configurations" % (core_d, len(CORE), len(_core_configs(tier))))
-    rule += (". After every history the file, the capture result, a clearing export's return value and the four "
-             "non-clearing exports are judged. A history reaching a canonical state already seen in its shard is "
-             "judged but not extended. A history is non-trivial when something visible or a control code was "
-             "recorded or a capture block was closed; distinct = distinct outcome signatures.")
+            "show_cursor(F|T), control(''), capture block entered through the context manager or begin_capture() and left "
+            "normally / by an exception propagating out of the with-block / through end_capture() (not nested), "
+            "export_text(clear=True, styles F|T), export_html(clear=True, inline F|T), rule('' | 't<'), log) x %d "
+            "configurations (color_system None|standard|256|truecolor x terminal or not at width 40, 4 at width 10, "
+            "8 with no_color / NO_COLOR)" % (full_d, len(EVENTS), len(CONFIGS)))
+    if tier != "quick":
+        rule += (" -- the last level on the %d width-40 configurations without NO_COLOR-by-environment, the other %d stop at length %d"
+                 % (len(FULL_DEEP_CONFIGS_THOROUGH), len(CONFIGS) - len(FULL_DEEP_CONFIGS_THOROUGH), full_d - 1))
+    rule += ("; plus all histories of length %d over a %d-event core (print a / entities / entities under CSS-less styles incl. a bare link / styled markup, "
+             "line, bell, capture enter, exit, exit by exception, export_text(clear), export_html(clear, inline), log) on %d "
+             "configurations" % (core_d, len(CORE), len(_core_configs(tier))))
+    rule += ("; plus all interleaved histories of length <= %d of TWO consoles of one configuration (%d events each: print a / "
+             "entities, bell, capture enter/exit, export_text(clear), export_html(clear, inline), log) x 4 ways the two came to "
+             "record (record=True in the constructor | built without, one print, then .record = True) on %d configurations"
+             % (pair_d, len(PAIR), len(_pair_configs(tier))))
+    rule += (". After every history, for every console: the file, the capture result, a clearing export's return value "
+             "and the four non-clearing exports are judged; directly after a clearing export all four must come out empty "
+             "(the styled one as the empty string: it also shows recorded control codes). A history reaching a canonical "
+             "state already seen in its shard is judged but not extended. A history is non-trivial when something visible "
+             "or a control code was recorded or a capture block was closed; distinct = distinct outcome signatures.")
     return {
         "rule": rule,
         "assumptions": [
             "captured output counts as written (to the capture) at the moment the block is closed, in the order the blocks were closed (DESIGN C15)",
+            "a capture block left by an exception returns its output like one left normally and nothing reaches the file ('everything printed inside a capture block is returned by the capture ... nothing reaches the file meanwhile')",
             "the twin console (same configuration, record=False, no captures) defines 'as it would have been written'; rendering itself is decided by other properties",
             "OSC 8 id parameters are ignored (random per Style object)",
             "styled export vs written stream: colours compared exactly on truecolor consoles, as present/absent on 16/256-colour consoles (down-conversion is C18/C03), not at all under no_color or without a colour system; attributes and links whenever the file carries styles",
             "styled export vs record: exact (attributes, colours as printed, link) on every configuration",
+            "control codes inside a non-empty styled export are not judged (the statement is about characters and styles); an empty record must export the empty string",
             "HTML export: text only (tags stripped, entities decoded, <pre> body); CSS and anchors are not judged",
             "capture blocks are not nested; export inside an open block sees only what was flushed before",
-            "canonical state = (file, record segments, thread buffer, buffer depth, LogRender._last_time, reference model); theme stack and render hooks are not touched by these events",
+            "recording switched on after construction records from that moment on",
+            "canonical state = per console (file, record segments, thread buffer, buffer depth, LogRender._last_time, reference model); theme stack and render hooks are not touched by these events",
             "states = sum over shards (configuration x first event[s]) of distinct canonical states; core shards count only histories of the additional depth",
             "the twin replays only the prefix's log events before the judged event (nothing else changes what a non-recording console writes later); every alarm, all histories of length <= 2 and every 64th one are re-run in full lock-step, whose verdict is the one reported",
         ],
@@ -704,6 +887,7 @@ def describe(tier, seed, res):
             "max_depth": c.get("max_depth", 0),
             "depth_bound_full_alphabet": full_d,
             "depth_bound_core_alphabet": core_d,
+            "depth_bound_two_consoles": pair_d,
             "frontier_at_depth_cap": c.get("frontier_at_depth_cap", 0),
             "lockstep_reruns": c.get("lockstep_reruns", 0),
             "fast_path_verdict_differs": c.get("fast_path_verdict_differs", 0),
@@ -715,7 +899,13 @@ def replay(case):
     cfg = tuple(case["config"])
     if len(cfg) == 3:
         cfg += (None,)
-    hist = [tuple(e) for e in case["history"]]
+    modes = tuple(case.get("modes") or ("ctor",))
+    if len(modes) == 1:
+        hist = [(0, tuple(e)) for e in case["history"]]
+    else:
+        hist = [(side, tuple(e)) for side, e in case["history"]]
+    # replay files written before the capture events carried a kind
+    hist = [(s, (e[0], "cm" if e[0] == "begin" else "ok") if e in (("begin",), ("end",)) else e) for s, e in hist]
     _cold_caches()
-    run, _ = run_history(cfg, hist)
-    return list(run.problems)
+    world, _ = run_history(cfg, hist, None, modes)
+    return list(world.problems)
